@@ -46,6 +46,7 @@ type Case struct {
 	DBFail    bool     `json:",omitempty"`
 	AzSt      string   `json:",omitempty"` // stored status of the owning authorization before the call ("" = pending)
 	AzExp     bool     `json:",omitempty"` // the owning authorization has expired
+	JWKKid    string   `json:",omitempty"` // KeyID carried by the account JWK handed to Validate ("" = as stored, "-" = empty)
 	AzSib     []string `json:",omitempty"` // stored statuses of the other challenges of the same authorization
 	AzForeign bool     `json:",omitempty"` // the authorization loaded (id from the request URL) is another identifier's: its own challenges are all pending
 	Mut       string   `json:",omitempty"` // name of the mutation that produced the response (evidence only)
@@ -83,6 +84,8 @@ type HTTPW struct {
 type DNSW struct {
 	Err     string `json:",omitempty"`
 	Records []string
+	Real    bool   `json:",omitempty"` // looked up by the real acme.NewClient() (net.LookupTXT) at a loopback name server
+	RCode   string `json:",omitempty"` // Real: "" | nxdomain | servfail | refused
 }
 
 // ---------- accounts (fixed public keys so that lines are reproducible) ----------
@@ -141,6 +144,9 @@ func (s *scripted) LookupTxt(name string) ([]string, error) {
 	s.calls = append(s.calls, "txt:"+c.X(name))
 	if s.k.DNS == nil {
 		return nil, errors.New("unexpected LookupTxt")
+	}
+	if s.k.DNS.Real {
+		return realClient.LookupTxt(name)
 	}
 	if s.k.DNS.Err != "" {
 		return nil, mkErr(s.k.DNS.Err)
@@ -304,6 +310,14 @@ func (k *Case) runValidate() (out string) {
 		}
 	}()
 	jwk, _, _ := account(k.Acct)
+	if k.JWKKid != "" { // the key id a client supplied with its key; it is no part of the key
+		cp := *jwk
+		cp.KeyID = k.JWKKid
+		if k.JWKKid == "-" {
+			cp.KeyID = ""
+		}
+		jwk = &cp
+	}
 	ch := &acme.Challenge{
 		ID: "chID", AccountID: "accID", AuthorizationID: "azID",
 		Value: k.Value, Type: chType(k.Typ), Status: statusOf(k.Status), Token: k.Token, Error: prevErr(k.PrevErr),
@@ -591,7 +605,17 @@ func (k *Case) render() (string, bool) {
 			w = fmt.Sprintf("w=resp:%d:%s", k.HTTP.Status, c.XB(k.HTTP.Body))
 		}
 	case k.DNS != nil:
-		if k.DNS.Err != "" {
+		if k.DNS.Real { // the model is told what the name server publishes; the client is modelled (clientLookupTxt)
+			items := make([]string, len(k.DNS.Records))
+			for i, r := range k.DNS.Records {
+				items[i] = c.X(r)
+			}
+			l := "-"
+			if len(items) > 0 {
+				l = strings.Join(items, ";")
+			}
+			w = fmt.Sprintf("w=realtxt:%s:%s", c.B(k.DNS.RCode != ""), l)
+		} else if k.DNS.Err != "" {
 			w = "w=err"
 		} else {
 			items := make([]string, len(k.DNS.Records))
@@ -640,6 +664,8 @@ func main() {
 	defer closeWire()
 	initReal()
 	defer closeReal()
+	initDNS()
+	defer closeDNS()
 	initHandler()
 	defer closeHandler()
 	o, err := c.NewOut(*out)
